@@ -17,7 +17,7 @@ use std::sync::Arc;
 use std::time::Duration;
 
 use futures_util::stream::{self, Stream, StreamExt};
-use hickory_net::NetError;
+use hickory_net::{DnsError, NetError, NoRecords};
 use hickory_net::dnssec::DnssecDnsHandle;
 use hickory_net::runtime::TokioRuntimeProvider;
 use hickory_net::xfer::{BufDnsStreamHandle, DnsHandle, Protocol};
@@ -198,6 +198,284 @@ pub fn query_zone(z: &Zone, q: &Name, qtype: u16) -> Outcome {
     })
 }
 
+/// a handle that answers one query with a prepared (tampered) result and passes every other
+/// query (the validator's DNSKEY / DS lookups) on to the catalog
+#[derive(Clone)]
+struct TamperHandle {
+    inner: CatalogHandle,
+    query: Query,
+    result: Arc<Result<DnsResponse, NoRecords>>,
+}
+
+impl DnsHandle for TamperHandle {
+    type Response = Pin<Box<dyn Stream<Item = Result<DnsResponse, NetError>> + Send>>;
+    type Runtime = TokioRuntimeProvider;
+
+    fn send(&self, request: DnsRequest) -> Self::Response {
+        let hit = request
+            .queries
+            .first()
+            .is_some_and(|q| q.name == self.query.name && q.query_type == self.query.query_type);
+        if hit {
+            let r = match &*self.result {
+                Ok(m) => Ok(m.clone()),
+                Err(e) => Err(NetError::Dns(DnsError::NoRecordsFound(e.clone()))),
+            };
+            Box::pin(stream::once(async move { r }))
+        } else {
+            self.inner.send(request)
+        }
+    }
+}
+
+pub const MUTATIONS: [&str; 10] = [
+    "strip-nsec", "strip-nsec-sig", "strip-soa", "strip-answer", "empty", "swap-rcode", "as-error", "as-error-bare",
+    "forge-nsec", "add-nsec3",
+];
+
+fn is_sig_of(rr: &Record, t: RecordType) -> bool {
+    matches!(&rr.data, RData::DNSSEC(DNSSECRData::RRSIG(s)) if s.input().type_covered == t)
+}
+
+/// the tampered result, or `None` when the mutation changes nothing
+fn tamper(raw: &DnsResponse, query: &Query, m: &str) -> Option<Result<DnsResponse, NoRecords>> {
+    let mut msg: hickory_proto::op::Message = (**raw).clone();
+    let before = (msg.answers.len(), msg.authorities.len(), msg.metadata.response_code);
+    match m {
+        "strip-nsec" => msg
+            .authorities
+            .retain(|rr| rr.record_type() != RecordType::NSEC && !is_sig_of(rr, RecordType::NSEC)),
+        "strip-nsec-sig" => msg.authorities.retain(|rr| !is_sig_of(rr, RecordType::NSEC)),
+        "strip-soa" => msg
+            .authorities
+            .retain(|rr| rr.record_type() != RecordType::SOA && !is_sig_of(rr, RecordType::SOA)),
+        "strip-answer" => msg.answers.retain(|rr| rr.record_type() == RecordType::RRSIG),
+        "empty" => {
+            msg.answers.clear();
+            msg.authorities.clear();
+        }
+        "swap-rcode" => {
+            msg.metadata.response_code = match msg.metadata.response_code {
+                ResponseCode::NXDomain => ResponseCode::NoError,
+                ResponseCode::NoError if msg.answers.is_empty() => ResponseCode::NXDomain,
+                other => other,
+            }
+        }
+        // an unsigned, forged `apex NSEC apex` next to the zone's genuine signed SOA "proves" that
+        // nothing but the apex exists: NXDOMAIN for the query name
+        "forge-nsec" => {
+            let soa = msg.authorities.iter().find(|rr| rr.record_type() == RecordType::SOA)?.clone();
+            if query.name == soa.name {
+                return None;
+            }
+            msg.answers.clear();
+            msg.authorities
+                .retain(|rr| rr.record_type() == RecordType::SOA || is_sig_of(rr, RecordType::SOA));
+            let forged = hickory_proto::dnssec::rdata::NSEC::new(
+                soa.name.clone(),
+                [RecordType::NS, RecordType::SOA, RecordType::RRSIG, RecordType::NSEC, RecordType::DNSKEY],
+            );
+            msg.authorities.push(Record::from_rdata(soa.name.clone(), soa.ttl, RData::DNSSEC(DNSSECRData::NSEC(forged))));
+            msg.metadata.response_code = ResponseCode::NXDomain;
+        }
+        // an (unsigned) NSEC3 record owned by the apex beside the genuine NSECs: a response with
+        // both kinds of proof is Bogus whatever they say
+        "add-nsec3" => {
+            let soa = msg.authorities.iter().find(|rr| rr.record_type() == RecordType::SOA)?.clone();
+            if !msg.authorities.iter().any(|rr| rr.record_type() == RecordType::NSEC) {
+                return None;
+            }
+            let n3 = hickory_proto::dnssec::rdata::NSEC3::new(
+                hickory_proto::dnssec::Nsec3HashAlgorithm::SHA1,
+                false,
+                0,
+                vec![],
+                vec![0u8; 20],
+                [RecordType::A, RecordType::RRSIG],
+            );
+            msg.authorities.push(Record::from_rdata(soa.name.clone(), soa.ttl, RData::DNSSEC(DNSSECRData::NSEC3(n3))));
+        }
+        // the bare error a caching layer may hand over: no authority records at all
+        "as-error-bare" => {
+            if !msg.answers.is_empty() {
+                return None;
+            }
+            return Some(Err(NoRecords::new(query.clone(), msg.metadata.response_code)));
+        }
+        "as-error" => {
+            if !msg.answers.is_empty() {
+                return None;
+            }
+            let mut e = NoRecords::new(query.clone(), msg.metadata.response_code);
+            e.authorities = Some(Arc::from(msg.authorities.clone()));
+            return Some(Err(e));
+        }
+        _ => return None,
+    }
+    if before == (msg.answers.len(), msg.authorities.len(), msg.metadata.response_code) {
+        return None;
+    }
+    DnsResponse::from_message(msg).ok().map(Ok)
+}
+
+fn validate_prepared(z: &Zone, query: &Query, prepared: Result<DnsResponse, NoRecords>) -> Result<DnsResponse, String> {
+    RT.with(|rt| {
+        rt.block_on(async {
+            let mut opts = DnsRequestOptions::default();
+            opts.use_edns = true;
+            opts.edns_set_dnssec_ok = true;
+            opts.recursion_desired = false;
+            let h = TamperHandle {
+                inner: CatalogHandle { catalog: z.catalog.clone() },
+                query: query.clone(),
+                result: Arc::new(prepared),
+            };
+            let secure = DnssecDnsHandle::with_trust_anchor(h, z.anchors.clone());
+            match secure.send(DnsRequest::from_query(query.clone(), opts)).next().await {
+                Some(Ok(r)) => Ok(r),
+                Some(Err(e)) => Err(format!("{e}")),
+                None => Err("no result".into()),
+            }
+        })
+    })
+}
+
+/// `tam <apex> <zone> <qname> <qtype> <mutation>`: the server's real response, tampered with, must
+/// not be accepted by `DnssecDnsHandle` (verify_response: which records reach verify_nsec, what
+/// happens when none do) unless what it then says is still true of the zone.
+pub fn exec_tamper(t: &[&str], line: &str, rec: &mut Recorder) {
+    let ["tam", apex, zone, q, qt, m] = t else {
+        rec.stat("skipped.unparsable-case");
+        return;
+    };
+    let (Some(apex), Some(q), Ok(qtype)) = (parse_name(apex), parse_name(q), qt.parse::<u16>()) else {
+        rec.stat("skipped.unparsable-case");
+        return;
+    };
+    let res = catch(|| {
+        LAST.with(|last| {
+            let mut last = last.borrow_mut();
+            let reuse = last.as_ref().is_some_and(|z| z.spec == *zone && z.apex == apex);
+            if !reuse {
+                *last = build_zone(&apex, zone);
+            }
+            let z = last.as_ref()?;
+            let query = Query::new(q.clone(), RecordType::from(qtype));
+            let base = query_zone(z, &q, qtype);
+            let raw = base.raw?;
+            let prepared = tamper(&raw, &query, m)?;
+            let shape = match &prepared {
+                Ok(r) => (r.response_code, r.answers.is_empty(), r.authorities.iter().any(|rr| rr.record_type() == RecordType::NSEC)),
+                Err(e) => (e.response_code, true, true),
+            };
+            let vn = match &prepared {
+                Ok(r) => vn_case_of(&q, qtype, r),
+                Err(_) => None,
+            };
+            let raw_has_nsec = raw.authorities.iter().any(|rr| rr.record_type() == RecordType::NSEC);
+            // an unsigned NSEC that sits at the owner name of a signed RRset of the authority section
+            // (the SOA): `verify_response` takes it for authenticated
+            let unsigned_nsec_beside_signed = match &prepared {
+                Ok(r) => r.authorities.iter().any(|n| {
+                    n.record_type() == RecordType::NSEC
+                        && !r.authorities.iter().any(|s| s.name == n.name && is_sig_of(s, RecordType::NSEC))
+                        && r.authorities.iter().any(|s| s.name == n.name && s.record_type() == RecordType::RRSIG)
+                }),
+                Err(_) => false,
+            };
+            let verdict = validate_prepared(z, &query, prepared).and_then(|r| {
+                // a response with answers is accepted only if its answer records are Secure
+                if r.answers.iter().all(|rr| rr.proof == Proof::Secure) { Ok(r) } else { Err("answer records not Secure".into()) }
+            });
+            Some((verdict, base.validated.is_ok(), shape, (raw_has_nsec, unsigned_nsec_beside_signed), truth(z, &q, qtype), vn))
+        })
+    });
+    let (verdict, base_ok, (rc, no_answers, _has_nsec), (raw_has_nsec, unsigned_beside), tr, vn) = match res {
+        Ok(Some(x)) => x,
+        Ok(None) => {
+            rec.stat("tamper.no-change");
+            return;
+        }
+        Err(p) => {
+            let idx = rec.case(line.to_string(), format!("panic {p}"));
+            rec.fail(idx, format!("panic in the tampered end-to-end path: {p}"), "");
+            return;
+        }
+    };
+    rec.impl_only += 1;
+    let idx = rec.case(line.to_string(), "~".into());
+    rec.stat("op.tam");
+    rec.stat(&format!("tamper.{m}.{}", if verdict.is_ok() { "accepted" } else { "rejected" }));
+    rec.nontrivial(idx);
+    let cut = matches!(tr, Truth::AtCut | Truth::BelowCut);
+    // at or below a delegation without DS nothing is authenticated: whatever is accepted there is
+    // accepted as Insecure, which is right
+    let insecure_cut = cut
+        && LAST.with(|last| {
+            last.borrow().as_ref().is_some_and(|z| {
+                let kq = super::key(&q);
+                // the cut closest to the apex decides (everything below an insecure cut is insecure)
+                z.data
+                    .iter()
+                    .filter(|(rel, ts)| {
+                        let k = super::key(&rel_name(rel, &z.apex));
+                        ts.contains(&2) && kq.len() >= k.len() && kq[..k.len()] == k[..]
+                    })
+                    .min_by_key(|(rel, _)| rel.len())
+                    .is_some_and(|(rel, _)| {
+                        !z.data.iter().any(|(r2, t2)| r2 == rel && t2.contains(&43))
+                    })
+            })
+        });
+    let mut bad: Option<String> = None;
+    if verdict.is_ok() && !insecure_cut {
+        // what the accepted response says must be true of the zone
+        if rc == ResponseCode::NXDomain && tr != Truth::NxDomain {
+            bad = Some(format!("NXDOMAIN accepted although the truth is {tr:?}"));
+        } else if rc == ResponseCode::NoError && no_answers && matches!(tr, Truth::Positive | Truth::WildcardPositive) {
+            bad = Some(format!("NODATA accepted although the truth is {tr:?}"));
+        }
+        // a secure zone's denial / wildcard proof cannot be dispensed with (outside referrals, where
+        // the validator fetches the DS proof itself)
+        if bad.is_none() && !cut && raw_has_nsec && matches!(*m, "strip-nsec" | "strip-nsec-sig" | "empty" | "forge-nsec" | "as-error-bare") {
+            bad = Some("accepted although the NSEC proof (or its signature) was removed".into());
+        }
+        if bad.is_none() && !cut && *m == "strip-answer" {
+            bad = Some("accepted although the answer RRset was removed".into());
+        }
+        if bad.is_none() && *m == "add-nsec3" {
+            bad = Some("accepted although the response carries both NSEC and NSEC3 records".into());
+        }
+    }
+    // (referrals are left out: delivered as an error they lose the sections that make them one)
+    if *m == "as-error" && !cut && verdict.is_ok() != base_ok {
+        bad = Some(format!(
+            "the response delivered as NoRecordsFound error is {} but {} as a message",
+            if verdict.is_ok() { "accepted" } else { "rejected" },
+            if base_ok { "accepted" } else { "rejected" }
+        ));
+    }
+    if let Some(b) = bad {
+        // classes of the two open findings, computed from zone + query + mutation (through the
+        // server's response): an unsigned NSEC beside a signed RRset is taken for authenticated
+        // (H2); otherwise no NSEC reaches verify_nsec and the response is accepted because the
+        // anchored zone's own "no DS at my apex" answer marks it insecure (H1)
+        let cls = if *m == "as-error" {
+            ""
+        } else if unsigned_beside {
+            "unsigned-nsec-beside-signed-rrset-taken-as-authenticated"
+        } else if matches!(*m, "strip-nsec" | "strip-nsec-sig" | "empty" | "strip-answer" | "as-error-bare") {
+            "proofless-response-accepted-child-side-ds-denial-marks-anchored-zone-insecure"
+        } else {
+            ""
+        };
+        rec.fail(idx, format!("DnssecDnsHandle, tampered response ({m}, truth {tr:?}): {b}"), cls);
+    }
+    if let Some(c) = vn {
+        super::exec(&c.line(), rec);
+    }
+}
+
 /// what the zone says about (q, qtype): used only to label the case and to compute the class
 #[derive(Debug, PartialEq, Eq, Clone, Copy)]
 pub enum Truth {
@@ -262,14 +540,9 @@ pub fn completeness_class(z: &Zone, q: &Name, qtype: u16, tr: Truth) -> &'static
         }
     }
     let is_prefix = |p: &[Vec<u8>], k: &[Vec<u8>]| k.len() >= p.len() && k[..p.len()] == p[..];
-    let exists = |p: &[Vec<u8>]| names.iter().any(|(n, _)| is_prefix(p, n));
     if kq.len() <= ka.len() || !is_prefix(&ka, &kq) {
         return "";
     }
-    let parent = &kq[..kq.len() - 1];
-    let ce_is_parent = exists(parent);
-    // a wildcard-labelled name strictly between the apex and the query name
-    let star_ancestor = kq[ka.len()..kq.len() - 1].iter().any(|l| l == b"*");
     // RFC 4592 gaps of the server (C10): it expands a wildcard further up the tree although the
     // closest encloser of the name has no wildcard / the name exists; the validator is right to reject
     let no_wildcard_applies = matches!(tr, Truth::NxDomain | Truth::NoData | Truth::EntNoData);
@@ -277,28 +550,14 @@ pub fn completeness_class(z: &Zone, q: &Name, qtype: u16, tr: Truth) -> &'static
         for i in ka.len()..kq.len() {
             let mut w = kq[..i].to_vec();
             w.push(b"*".to_vec());
-            if w != kq && names.iter().any(|(n, ts)| *n == w && (ts.contains(&qtype) || ts.contains(&5))) {
+            if w != kq && names.iter().any(|(n, ts)| *n == w && (qtype == 255 || ts.contains(&qtype) || ts.contains(&5))) {
                 return "completeness-server-expands-inapplicable-wildcard";
             }
         }
     }
-    // the chain's last record wraps to the apex; a wildcard-expanded answer carries no SOA, and
-    // without it the validator does not recognise the wrapping record as covering
-    let after_all = names.iter().all(|(n, _)| *n < kq || names.iter().any(|(d, dts)| *d != ka && dts.contains(&2) && d.len() < n.len() && is_prefix(d, n)));
     match tr {
-        Truth::WildcardPositive if !ce_is_parent && after_all => "completeness-wildcard-answer-wrapping-nsec-without-soa",
-        // the validator has no arm for NODATA at an empty non-terminal (the covering record's next
-        // name is below the query name; the wildcard below it is then "covered" and nothing accepts)
-        Truth::EntNoData => "completeness-empty-non-terminal-nodata-rejected",
         // RFC 4035 B.7: the server answers with the wrong proof / response code (upstream-ignored test)
         Truth::WildcardNoData => "completeness-wildcard-nodata-rejected",
-        // the validator demands that `*.<parent of qname>` be covered, which is impossible when that
-        // is the very wildcard the answer was expanded from
-        Truth::WildcardPositive if ce_is_parent => "completeness-wildcard-answer-one-label-expansion-rejected",
-        // the server denies the wildcard at the parent of the query name instead of at the closest encloser
-        Truth::NxDomain if !ce_is_parent => "completeness-server-denies-wildcard-at-parent-not-closest-encloser",
-        // Name::num_labels() discounts `*`: a wildcard-labelled ancestor is not found as closest encloser
-        Truth::NxDomain if star_ancestor => "completeness-wildcard-labelled-ancestor-rejected",
         _ => "",
     }
 }
@@ -414,6 +673,9 @@ pub fn exec(t: &[&str], line: &str, rec: &mut Recorder) {
     }
 }
 
+/// number of hand-built zones at the head of `zones()`
+const HAND_ZONES: usize = 9;
+
 /// zones of the end-to-end run: hand-built shapes (empty non-terminals, wildcards, wildcard
 /// below an empty non-terminal, delegations with and without DS, deep names) plus random ones
 fn zones(o: &Opts, r: &mut Rng) -> Vec<Vec<(Vec<Vec<u8>>, Vec<u16>)>> {
@@ -458,7 +720,7 @@ pub fn run(o: &Opts, rec: &mut Recorder) {
     let mut r = Rng::new(o.seed ^ 0xe2e);
     let apex = Name::from_ascii("x.").unwrap();
     let alphabet: [&[u8]; 4] = [b"a", b"b", b"*", b"c"];
-    for z in zones(o, &mut r) {
+    for (zi, z) in zones(o, &mut r).into_iter().enumerate() {
         let spec = zone_tok(&z);
         // queries: every zone name, its parent, children and siblings by every alphabet label
         let mut qs: BTreeSet<Vec<Vec<u8>>> = BTreeSet::new();
@@ -486,15 +748,26 @@ pub fn run(o: &Opts, rec: &mut Recorder) {
         }
         for qrel in qs {
             let q = rel_name(&qrel, &apex);
-            for qt in [1u16, 16, 43] {
+            for qt in [1u16, 16, 43, 6, 2, 5, 47, 255] {
                 if qt == 43 && !z.iter().any(|(_, ts)| ts.contains(&2)) {
                     continue;
                 }
                 if qt == 16 && !o.thorough() && r.chance(1, 2) {
                     continue;
                 }
+                // SOA / NS / CNAME / NSEC / ANY: on a sample (other arms of the server's response builder)
+                if [6u16, 2, 5, 47, 255].contains(&qt) && !r.chance(1, if o.thorough() { 2 } else { 6 }) {
+                    continue;
+                }
                 let line = format!("e2e {} {} {} {}", name_tok(&apex), spec, name_tok(&q), qt);
                 exec(&line.split_whitespace().collect::<Vec<_>>(), &line, rec);
+                // the same response, tampered with
+                if zi < HAND_ZONES && (qt == 1 || qt == 43) || r.chance(1, if o.thorough() { 4 } else { 40 }) {
+                    for m in MUTATIONS {
+                        let line = format!("tam {} {} {} {} {}", name_tok(&apex), spec, name_tok(&q), qt, m);
+                        exec_tamper(&line.split_whitespace().collect::<Vec<_>>(), &line, rec);
+                    }
+                }
             }
         }
     }
